@@ -285,6 +285,7 @@ RR_SHAPES = [
     ("OPT0", 41, None, 3, []),
     ("OPT1", 41, None, 3, [A, A, 0, 2, A, A]),
     ("OPT2", 41, None, 3, [A, A, 0, 0, A, A, 0, 1, A]),
+    ("OPT3", 41, None, 3, [A, A, 0, 1, A, A, A, 0, 0]),   # an option with data FOLLOWED by an empty one (per-option state must not carry over)
     ("TLSA", 52, 1, 1, [A] * 7),
     ("SVCB0", 64, 1, 1, [A, A, 0]),
     ("SVCB1", 64, 1, 1, [A, A] + NAME_B + [A, A, 0, 2, A, A]),
